@@ -45,6 +45,7 @@ type wgResult struct {
 	ErrKinds  map[string]int
 	Dump      string // canonical dump of the first accepted build
 	HookError string
+	OracleBug string // the reference disagrees with its own brute-force self-check
 }
 
 func errKind(err error) string {
@@ -393,6 +394,12 @@ func wgEvaluate(in wgInput, o wgOpts) *wgResult {
 	res.G = gSpec
 	res.Reason = gSpec.Weights(ref.Quirks{})
 	res.SpecOK = res.Reason == ""
+	if res.SpecOK && len(gSpec.Nodes) <= 30 {
+		// oracle self-check (brute-force walks); a disagreement is a defect of the reference, not of the library
+		if msg := gSpec.CheckWalks(); msg != "" {
+			res.OracleBug = msg
+		}
+	}
 
 	// as-implemented variants (footprints of recorded findings), built lazily
 	type variant struct {
